@@ -12,10 +12,11 @@ and `0 < s < N` — in particular when `N - s` has any number of leading zero by
 constant: stated in `Model/P256.lean` and compared with `cert/p256`'s `nMod` / `halfN` by the `p256n` op.
 -/
 import Nebula.Lemmas.P256Twin
+import Nebula.Lemmas.P256TwinUnique
 import Nebula.Props.C02
 
 namespace Nebula.Props.C02
-open Nebula.Der Nebula.Cert Nebula.P256 Nebula.P256Twin Nebula.Lemmas.P256Twin
+open Nebula.Der Nebula.Cert Nebula.P256 Nebula.P256Twin Nebula.Lemmas.P256Twin Nebula.Lemmas.P256TwinUnique
 
 /-- **Swap answers the twin**: the unique minimal DER encoding of `(r, N - s)`. -/
 theorem swap_is_twin (r s : Nat) (hr : 0 < r) (hr' : r < 2 ^ 256) (hs : 0 < s) (hs' : s < N) :
@@ -180,6 +181,41 @@ theorem twin_fingerprints_symmetric (K : Crypto) (p : Pool) (t : Int) (c : Cert)
   intro fp hfpv hb
   exact blocklisting_either_twin_rejects K p t lo hi (H (fpb lo)) (H (fpb hi))
     ⟨hfp lo, by rw [a1, hfp hi]⟩ ⟨hfp hi, by rw [a2, hfp lo]⟩ ⟨hH _, hH _⟩ fp hfpv hb
+
+/-- **The accepted encoding is unique**: every byte string of fewer than 130 bytes (P-256 signatures have at most
+72) that `parseSignature` accepts is the minimal DER encoding `encSig` of the numbers read — so "the minimal DER
+encoding of `(r, N - s)`" that `Swap` answers (`swap_is_twin`) is the ONLY byte string a verifier of the twin
+certificate can have been given. -/
+theorem minimal_der_unique (sig rb sb : Der.Bytes) (hl : sig.length < 130) (h : parseSignature sig = some (rb, sb)) :
+    sig = encSig (beNat rb) (beNat sb) ∧ decSig sig = some (beNat rb, beNat sb) := by
+  have e := parse_unique sig rb sb hl h
+  refine ⟨e, ?_⟩
+  have hlen := congrArg List.length e
+  -- sizes: the digits are shorter than the string they were read from
+  have b1 : (natBytes (beNat rb)).length + (natBytes (beNat sb)).length + 30 < 2 ^ 32 := by
+    have l1 : (natBytes (beNat rb)).length ≤ (intContent (beNat rb)).length := by
+      unfold intContent; split
+      · next e0 => rw [e0]; simp
+      · next b rest e0 => rw [e0]; split <;> simp
+    have l2 : (natBytes (beNat sb)).length ≤ (intContent (beNat sb)).length := by
+      unfold intContent; split
+      · next e0 => rw [e0]; simp
+      · next b rest e0 => rw [e0]; split <;> simp
+    simp only [encSig, encInt, encTLV, List.length_cons, List.length_append] at hlen
+    omega
+  rw [e]; exact decSig_encSig _ _ b1
+
+/-- **Swap is an involution on every accepted signature** (not only on `encSig` terms): for every byte string of
+fewer than 130 bytes that the strict reader accepts with `0 < r < 2^256` and `0 < s < N`, `Swap (Swap sig) = sig`,
+and `Swap sig` is the minimal DER encoding of `(r, N - s)`. -/
+theorem swap_involutive_accepted (sig rb sb : Der.Bytes) (hl : sig.length < 130) (h : parseSignature sig = some (rb, sb))
+    (hr : 0 < beNat rb) (hr' : beNat rb < 2 ^ 256) (hs : 0 < beNat sb) (hs' : beNat sb < N) :
+    P256.swap sig = some (encSig (beNat rb) (N - beNat sb)) ∧ (P256.swap sig).bind P256.swap = some sig := by
+  have e := (minimal_der_unique sig rb sb hl h).1
+  constructor
+  · rw [e]; exact swap_is_twin _ _ hr hr' hs hs'
+  · have := swap_involutive _ _ hr hr' hs hs'
+    rw [← e] at this; exact this
 
 /-! ### Non-vacuity: the class the encoder loops exist for — `N - s` with 31 leading zero bytes -/
 
